@@ -9,6 +9,7 @@ search     : the Spec model IS the documented semantics, so a disagreement on a 
 from __future__ import annotations
 
 import json
+import os
 import random
 
 from harness import core
@@ -129,6 +130,7 @@ def run(ck, only_sweeps=False, prop="C01"):
 
     if not only_sweeps:
         overlap_oracle(ck, cases, 150 if thorough else 40)
+        ck.notes["keyword_only_and_sink_runs"] = keyword_only_oracle(ck) + failing_sink_oracle(ck)
 
     # every disagreement is a failing input of the property (Spec = documented semantics): shrink and report
     reported = set()
@@ -155,6 +157,87 @@ def run(ck, only_sweeps=False, prop="C01"):
                       {"nodes": [pg.node_impl_repr(n) for n in nodes], "descriptors": nodes, "data0": data0, "ctx0": ctx0,
                        "implementation": list(out)})
     ck.cov["trusted_base"] = TRUSTED
+
+
+def keyword_only_oracle(ck):
+    """Direct oracle: processors whose parameters are keyword-only (`def _process_logic(self, data, *, factor, offset=0.0)`).
+    Every placement of each parameter -- node configuration, initial context, produced by an earlier probe, default, missing --
+    resolves with the documented precedence configuration > context > default, and a missing required one raises at the node."""
+    import itertools
+    from semantiva.context_processors import ContextType
+    from semantiva.pipeline import Payload, Pipeline
+    from harness.lib import components as C
+    pg.setup_impl()
+    n = 0
+    placements = ["config", "context", "probe", "absent"]
+    for pf, po in itertools.product(placements, placements):
+        for kind in ("operation", "probe"):
+            cfg, ctx0 = {}, {}
+            want = {"factor": (None if kind == "operation" else 1.0), "offset": 0.0}         # defaults (None: required)
+            nodes = [{"processor": "FloatValueDataSource", "parameters": {"value": 3.0}}]
+            for name, where, val in (("factor", pf, 4.0), ("offset", po, 0.5)):
+                if where == "config":
+                    cfg[name], ctx0[name] = val, 99.0        # configuration beats the context
+                    want[name] = val
+                elif where == "context":
+                    ctx0[name] = val
+                    want[name] = val
+                elif where == "probe":
+                    nodes.append({"processor": "FloatCollectValueProbe", "context_key": name})      # publishes 3.0 under the name
+                    want[name] = 3.0
+            node = {"processor": C.VerifKwOnlyScaleOperation if kind == "operation" else C.VerifKwOnlyProbe, "parameters": dict(cfg)}
+            if kind == "probe":
+                node["context_key"] = "out"
+            nodes.append(node)
+            try:
+                res = Pipeline(nodes).process(Payload(None, ContextType(dict(ctx0))))
+                got = ("done", res.data.data if kind == "operation" else list(res.context.get_value("out")))
+            except Exception as ex:  # noqa
+                got = ("raises", pg.classify(ex)[0])
+            n += 1
+            if want["factor"] is None:
+                exp = ("raises", "SResolve")
+            else:
+                exp = ("done", 3.0 * want["factor"] + want["offset"] if kind == "operation" else [3.0 * want["factor"], want["offset"]])
+            if got != exp:
+                ck.fail_input("C01:keyword-only-parameter:%s" % kind,
+                              "a %s with keyword-only parameters, factor from %s, offset from %s: got %s, documented semantics give %s"
+                              % (kind, pf, po, got, exp), {"kind": "keyword-only", "component": kind, "factor": pf, "offset": po, "got": list(got), "want": list(exp)})
+                return n
+    return n
+
+
+def failing_sink_oracle(ck):
+    """Direct oracle: a sink whose write fails at run time (a path in a directory that does not exist, from the configuration,
+    the context or an earlier template node): the run raises at that node and no later node runs."""
+    import tempfile
+    from semantiva.context_processors import ContextType
+    from semantiva.pipeline import Payload, Pipeline
+    pg.setup_impl()
+    n = 0
+    missing = os.path.join(tempfile.gettempdir(), "verif_no_such_dir_%d" % os.getpid(), "deeper", "out.txt")
+    variants = {
+        "config": ([{"processor": "FloatTxtFileSaver", "parameters": {"path": missing}}], {}),
+        "context": ([{"processor": "FloatTxtFileSaver"}], {"path": missing}),
+        "template": ([{"processor": 'template:"{base}/deeper/out.txt":path'}, {"processor": "FloatTxtFileSaver"}], {"base": os.path.dirname(os.path.dirname(missing))}),
+    }
+    for name, (mid, ctx0) in variants.items():
+        nodes = [{"processor": "FloatValueDataSource", "parameters": {"value": 2.0}}] + mid + [{"processor": "FloatCollectValueProbe", "context_key": "after"}]
+        with pg.StartLog() as log:
+            try:
+                res = Pipeline(nodes).process(Payload(None, ContextType(dict(ctx0))))
+                got = ("done", sorted(res.context.keys()))
+            except Exception as ex:  # noqa
+                got = ("raises", type(ex).__name__)
+        n += 1
+        started = len(log.started)
+        sink_index = len(nodes) - 2
+        if got[0] != "raises" or started != sink_index + 1:
+            ck.fail_input("C01:failing-sink-does-not-stop-the-run",
+                          "a file sink whose path (from %s) lies in a directory that does not exist: the run %s and %d of %d nodes started; "
+                          "the documented semantics raise at node %d and run nothing after it" % (name, got, started, len(nodes), sink_index + 1),
+                          {"kind": "failing-sink", "path_from": name, "got": list(got), "started": started})
+    return n
 
 
 def _shift_ctx(ctx0):
@@ -244,6 +327,14 @@ def replay(obj):
         pg.setup_impl()
         overlap_oracle(_Ck(), [(r["descriptors"], r["data0"], r["contexts"][0], ("done",))], 1)
         return 0
+    if r.get("kind") in ("keyword-only", "failing-sink"):
+        class _Ck2:
+            notes, cov, failing = {}, {"evaluations": 0}, []
+            def fail_input(self, sig, what, rep): self.failing.append(sig); print("STILL FAILS:", sig, "-", what)
+        c = _Ck2()
+        (keyword_only_oracle if r["kind"] == "keyword-only" else failing_sink_oracle)(c)
+        print("recorded:", json.dumps(r), "| now:", c.failing or "no violation on this tree")
+        return 1 if c.failing else 0
     out = pg.run_impl(r["descriptors"], r["data0"], r["ctx0"])
     print("nodes:", json.dumps(r["nodes"]))
     print("data0:", r["data0"], "ctx0:", r["ctx0"])
